@@ -318,24 +318,30 @@ func BuildChart(cs *ChartSpec) *chart.Chart {
 		}
 	}
 	for i := range cs.Subcharts {
-		sc := &cs.Subcharts[i]
-		sub := &chart.Chart{
-			Metadata: &chart.Metadata{APIVersion: "v2", Name: sc.Name, Version: "0.1.0", Type: "application"},
-			Values:   deepCopyMap(sc.Values),
-		}
-		if sub.Values == nil {
-			sub.Values = map[string]interface{}{}
-		}
-		sub.Templates = buildTemplates(sc.Slots, false, sc.Notes)
-		if sc.Schema != "" {
-			sub.Schema = []byte(sc.Schema)
-		}
-		ch.Metadata.Dependencies = append(ch.Metadata.Dependencies, &chart.Dependency{
-			Name: sc.Name, Version: "0.1.0", Repository: "", Alias: sc.Alias, Condition: sc.Condition,
-		})
-		ch.AddDependency(sub)
+		addSubchart(ch, &cs.Subcharts[i])
 	}
 	return ch
+}
+
+func addSubchart(parent *chart.Chart, sc *SubchartSpec) {
+	sub := &chart.Chart{
+		Metadata: &chart.Metadata{APIVersion: "v2", Name: sc.Name, Version: "0.1.0", Type: "application"},
+		Values:   deepCopyMap(sc.Values),
+	}
+	if sub.Values == nil {
+		sub.Values = map[string]interface{}{}
+	}
+	sub.Templates = buildTemplates(sc.Slots, false, sc.Notes)
+	if sc.Schema != "" {
+		sub.Schema = []byte(sc.Schema)
+	}
+	parent.Metadata.Dependencies = append(parent.Metadata.Dependencies, &chart.Dependency{
+		Name: sc.Name, Version: "0.1.0", Repository: "", Alias: sc.Alias, Condition: sc.Condition,
+	})
+	parent.AddDependency(sub)
+	for i := range sc.Sub {
+		addSubchart(sub, &sc.Sub[i])
+	}
 }
 
 func deepCopyMap(m map[string]interface{}) map[string]interface{} {
